@@ -43,11 +43,11 @@ theorem foldl_addDep_spec {p : Nat} (hp : p ∈ cyc) : ∀ (ts : List Nat) (w : 
 /-- One level of the engine satisfies the specification if the nested level does. -/
 theorem ifchangeWith_spec (hR : 0 < R) {E : Engine} (hE : ESpec R E) (d : Defects) (hd : d.oobRebuildsDepsNotTarget = false)
     (fuel : Nat) : ESpec R { ifchangeCmd := fun cx ts w => ifchangeWith E d fuel cx ts w } := by
-  intro cx ts w hRid hredo hcr hpar hunl hinv
+  intro cx cyc ts w hRid hredo hcr hsub hpar hunl hinv
   dsimp only
   unfold ifchangeWith
-  have hrt := fun w0 (h0 : RInv R cx.cycles w0) =>
-    runTargets_spec hR hE d hd cx hRid hredo hcr rfl hpar fuel ts [] false w0 hunl h0 (fun _ s hs => by cases hs)
+  have hrt := fun w0 (h0 : RInv R cyc w0) =>
+    runTargets_spec hR hE d hd cx hRid hredo hcr hsub hpar fuel ts [] false w0 hunl h0 (fun _ s hs => by cases hs)
   cases hp : cx.parent with
   | none =>
     simp only [Bool.false_eq_true, if_false]
@@ -55,7 +55,7 @@ theorem ifchangeWith_spec (hR : 0 < R) {E : Engine} (hE : ESpec R E) (d : Defect
     rw [hp] at h
     exact ⟨h.inv, h.step, fun e => ⟨(h.ok e).2.1, (h.ok e).2.2.1⟩, h.nn⟩
   | some p =>
-    have hpc : p ∈ cx.cycles := hpar p hp
+    have hpc : p ∈ cyc := hpar p hp
     simp only
     cases hcon : (!cx.unlocked && ts.contains p) with
     | true =>
@@ -90,7 +90,7 @@ theorem ifchangeWith_spec (hR : 0 < R) {E : Engine} (hE : ESpec R E) (d : Defect
 
 theorem engine_spec (hR : 0 < R) (d : Defects) (hd : d.oobRebuildsDepsNotTarget = false) : ∀ n, ESpec R (engine d n)
   | 0 => by
-    intro cx ts w _ _ _ _ _ hinv
+    intro cx cyc ts w _ _ _ _ _ _ hinv
     refine ⟨hinv, RStep.refl _ _, (fun h => ?_), (by show (0 : Int) ≤ EXIT_FAILURE; decide)⟩
     exact absurd (show EXIT_FAILURE = (0 : Int) from h) (by decide)
   | n + 1 => ifchangeWith_spec hR (engine_spec hR d hd n) d hd (n + 1)
@@ -185,7 +185,7 @@ theorem ran_nodup_of_wf (d : Defects) (hd : d.oobRebuildsDepsNotTarget = false) 
   have hinv := rinv_start hwf hov hc
   have hR : 0 < w.runCounter + 1 := Nat.succ_pos _
   have h := runTargets_spec (cyc := []) hR (engine_spec hR d hd (2 * n + 4)) d hd
-    { runid := w.runCounter + 1, keepGoing := kg } rfl rfl rfl rfl (fun p hp => by cases hp) (2 * n + 4) ts [] false
+    { runid := w.runCounter + 1, keepGoing := kg } rfl rfl rfl (fun x hx => by cases hx) (fun p hp => by cases hp) (2 * n + 4) ts [] false
     { w with trace := [], runCounter := w.runCounter + 1 } (fun h => by cases h) hinv (fun _ s hs => by cases hs)
   exact h.inv.nd
 
